@@ -212,3 +212,79 @@ def templates(body):
         res.append(tpl)
     res.sort(key=lambda x: order.index(x.block) if x.block in order else 0)
     return res
+
+
+def stream_template(body, local, tpls, steps=12):
+    """the template whose token stream ends up in `local` (followed back through moves), if it is the only definition"""
+    cur = local
+    for _ in range(steps):
+        for t in tpls:
+            if t.stream == cur:
+                return t
+        ds = M.real_defs(body, cur)
+        if len(ds) != 1 or ds[0][1] == "term":
+            return None
+        rv = ds[0][2]["rv"]
+        nxt = op_place(rv["op"]) if rv["k"] in ("use", "cast") else None
+        if nxt is None or [x for x in nxt["p"] if x != "*"]:
+            return None
+        cur = nxt["l"]
+    return None
+
+
+def expanded(body, tpl, tpls, depth=3):
+    """tokens of `tpl` with every interpolated token stream that is itself a (single) template of the same function
+    spliced in: `let operand = quote!(f(#x)); quote!(a & #operand)` reads `a & f(#x)`"""
+    k = [0]
+
+    def walk(tokens, d):
+        out = []
+        i = 0
+        while i < len(tokens):
+            t = tokens[i]
+            if t == "#" and i + 1 < len(tokens) and isinstance(tokens[i + 1], str) and k[0] < len(tpl.interps) and d == depth:
+                nm, loc, ty = tpl.interps[k[0]]
+                if tokens[i + 1] == nm:
+                    k[0] += 1
+                    sub = stream_template(body, loc, tpls) if loc is not None and "TokenStream" in (ty or "") else None
+                    if sub is not None and sub is not tpl and d > 0:
+                        out += expanded(body, sub, tpls, d - 1)
+                    else:
+                        out += ["#", nm]
+                    i += 2
+                    continue
+            if isinstance(t, dict):
+                out.append({"d": t["d"], "ts": walk(t["ts"], d)})
+            else:
+                out.append(t)
+            i += 1
+        return out
+
+    return walk(tpl.tokens, depth)
+
+
+def function_templates(crate, prefix):
+    """(body, templates) for every function under `prefix`, helpers spliced in; a template that belongs to a helper is
+    reported once, with the outermost function that contains it"""
+    seen = set()
+    out = []
+    roots = [b for b in crate.bodies if b.path.startswith(prefix) and b.kind in ("Fn", "AssocFn")]
+    owned = {}
+    for b in roots:
+        for p in crate.owned_by(b.path):
+            if p != b.path:
+                owned[p] = b.path
+    for b in roots:
+        if b.path in owned:
+            continue
+        ib = crate.inlined(b)
+        tpls = templates(ib)
+        keep = []
+        for t in tpls:
+            key = (t.file, t.line, t.text())
+            if key in seen:
+                continue
+            seen.add(key)
+            keep.append(t)
+        out.append((ib, tpls, keep))
+    return out
